@@ -1278,6 +1278,21 @@ async fn scenario_c13(seed: u64, id: u64, base: &Path, r: &mut PropReport) {
             }
             r.count("give_up_states_checked", 1);
         }
+        // a renewal of the registration while the tower keeps failing (its register endpoint works, its
+        // add_appointment endpoint answers garbage) must not make the client forget that it has data to deliver
+        if kind == 2 && plugin.alive() {
+            let before = tower_status(&mut plugin, &tid).await;
+            let renewed = plugin.call("registertower", json!([format!("{tid}@127.0.0.1:{}", tower.port)]), 20).await.is_ok();
+            let after = tower_status(&mut plugin, &tid).await;
+            if renewed {
+                r.count("renewals_while_failing_checked", 1);
+                if let (Some(b), Some(a)) = (before, after) {
+                    if a.0 == "reachable" && a.1 > 0 && b.0 != "reachable" {
+                        r.violation("C13:reachable-with-pending-after-renewal", format!("{ctx}: the registration was renewed while the tower kept answering garbage to add_appointment; the tower went from {b:?} to {a:?}: shown reachable with data pending and no retry running"), replay.clone());
+                    }
+                }
+            }
+        }
     }
     // ---- recovery
     if kind == 5 {
